@@ -372,20 +372,37 @@ def copy_completeness(ctx, rid):
                     pass
             if whole:
                 continue
+            # a member also counts as transferred when the SOURCE's member is read anywhere in the operation
+            # (deep copies through loops, `if (o._is_bottom) set_to_bottom(); else ...` idioms): what the rule
+            # decides is the necessary condition "the copy depends on every member of the original"
+            read_src = set()
+            allnodes = list(walk(body)) + [y for i in fn.get("inits", []) for y in walk(i.get("e"))]
+            for y in allnodes:
+                if y.get("k") == "mem" and "fn" not in y:
+                    b = strip_move(y.get("b"))
+                    if isinstance(b, dict) and b.get("k") == "ref" and b.get("id") == src_id:
+                        read_src.add(y.get("n"))
+            calls_on_src = any(y.get("k") == "call" and "o" in y and isinstance(strip_move(y["o"]), dict) and
+                               strip_move(y["o"]).get("id") == src_id for y in allnodes)
             for x in fields:
                 n += 1
                 st = copied.get(x["n"])
+                if x["n"] in read_src:
+                    st = True
+                if st is not True and calls_on_src:
+                    # the source is also accessed through its own member functions: which members those read is
+                    # outside the fragment
+                    ctx.skipped("%s|%s|%s|%s" % (rid, c["pk"], kind or akind, x["n"]), rid=rid)
+                    continue
                 what = "%s %s of %s" % ("copy" if (kind == "copy" or akind == "copy") else "move",
                                         "constructor" if kind else "assignment", c["pk"])
                 key = "%s::%s" % (c["pk"], x["n"])
                 if st is True:
-                    ctx.ok("%s transfers %s" % (what, x["n"]), fn, None, rid=rid)
+                    ctx.ok("%s reads %s of the source" % (what, x["n"]), fn, None, rid=rid)
                 elif key in COPY_EXEMPT:
                     ctx.exempt(key, COPY_EXEMPT[key], rid=rid)
-                elif x["T"].startswith("const ") and x["T"].endswith("&"):
-                    ctx.ok("%s: reference member %s rebinding not applicable" % (what, x["n"]), fn, None, rid=rid)
                 else:
-                    ctx.bad("the %s does not transfer data member `%s`%s: the copy describes a different value than the original"
+                    ctx.bad("the %s never reads data member `%s` of the source%s: the copy cannot describe the same value as the original"
                             % (what, x["n"], "" if st is None else " (it is set from `%s`)" % st.split(":", 1)[1][:60]),
                             fn, fn["body"], sig="copy-missing:%s:%s:%s" % (c["pk"], kind or ("asg-" + akind), x["n"]), rid=rid)
     if n == 0:
